@@ -20,10 +20,16 @@ ArRight(op, a, b, o) ==
   ELSE IF want = "same-as-a" THEN o.s = a.s /\ o.e = a.e /\ o.h = a.h /\ o.l = a.l
   ELSE Class(o) = want
 
+Denotes(o, x) == o.c = "F" /\ (IF IsNaN(x) THEN IsNaN(o) ELSE o.s = x.s /\ o.e = x.e /\ o.h = x.h /\ o.l = x.l)
+
 Wrong ==
   LET r == Recs[pid] IN
   {<<op, f>> \in CmpOps \X (1..3) : ~(r.cmp[op][f].c = "B" /\ r.cmp[op][f].v = Compare(op, r.a, r.b))}
   \cup {<<op, f>> \in ArOps \X (1..3) : ~ArRight(op, r.a, r.b, r.ar[op][f])}
+  \* the operand written down as a program of its own denotes exactly that float (shortest and long spelling)
+  \cup (IF "lit" \in DOMAIN r
+        THEN {<<"literal", f>> : f \in {g \in 1..4 : ~Denotes(r.lit[g], IF g \in {1, 3} THEN r.a ELSE r.b)}}
+        ELSE {})
 
 SetToSeq(S) == LET RECURSIVE Ser(_)
                    Ser(T) == IF T = {} THEN <<>> ELSE LET x == CHOOSE y \in T : TRUE IN <<x>> \o Ser(T \ {x})
